@@ -3,9 +3,9 @@ from checklib import cbytes, cbool, clist, cpair, cN, copt
 
 ID = "C16"
 HARNESS = "c16"
-N_CASES = {"quick": 320, "thorough": 2500}
+N_CASES = {"quick": 160, "thorough": 2500}
 N_SEARCH = {"quick": 1, "thorough": 2}
-SHARD = 64
+SHARD = 48
 HAS_MODEL_OUT = True
 RULE = ("pair lists written with the real writer and read back with Find / FindStart+FindNext (one shared Context), "
         "Data, Reader.First/Exists, then Dump and Make: "
@@ -43,14 +43,15 @@ def differential(ctx):
     import checklib
     checklib.differential_step(ctx)
     try:
-        binp = os.path.join(checklib.HARNESS, "bin", HARNESS)
-        if os.path.realpath(checklib.REPO) != "/repo":
-            binp = os.path.join(ctx.scratch, "bin-" + HARNESS)
-        if not os.path.exists(binp):
+        # the cases of the run just made (written by the driver into the scratch directory)
+        path = os.path.join(ctx.scratch, "cases.jsonl")
+        if not os.path.exists(path):
             return
-        rc, out, got = checklib.harness_run(ctx, binp, 60, ctx.seed + 1, os.path.join(ctx.scratch, "diag.jsonl"))
-        cs = [c for c in got if c["kind"] != "big" and c.get("file")][:80]
-        if rc != 0 or not cs:
+        import json
+        got = [json.loads(l) for l in open(path) if l.strip()]
+        cs = [c for c in got if c["kind"] != "big" and c.get("file")]
+        cs = cs[::max(1, len(cs) // 30)][:30]
+        if not cs:
             return
         d = tempfile.mkdtemp(prefix="coqdiag-", dir=ctx.scratch)
         header = "Definition model_ok := diag_ok.\nDefinition spec_ok := fun _ : case => true."
